@@ -57,10 +57,19 @@ def mutants_of(path, name, src):
             if a.strip() in ('<', '>') and ('<-' in code or '->' in code): continue
             if a == '==' and 'err' in code and 'nil' in code: pass
             out.append((ln, a.strip(), l[:k] + b + l[k + len(a):]))
+        if os.environ.get('MUT_CONST'):
+            out = [o for o in out if False] if os.environ.get('MUT_CONST') == 'only' and ln == rng[0] + 1 else out
+            for mm in re.finditer(r'(?<![\w.\"])(\d+)(?![\w.\"])', code):
+                v = int(mm.group(1))
+                if v < 2 or code.strip().startswith('case ') or '"' in code[:mm.start()].split('(')[-1]: continue
+                out.append((ln, 'const*2', l[:mm.start()] + str(v * 2) + l[mm.end():]))
+                out.append((ln, 'const/2', l[:mm.start()] + str(max(1, v // 2)) + l[mm.end():]))
+                break
         m = re.search(r'\bif !(\w|\()', code)
         if m: out.append((ln, 'drop-negation', l[:m.start()] + 'if ' + l[m.start() + 4:]))
         if st == 'return' and lines[ln - 1].strip() and not lines[ln - 1].strip().startswith('//'):
             out.append((ln, 'drop-return', l.replace('return', '// (mutant) return dropped')))
+    if os.environ.get('MUT_CONST') == 'only': out = [o for o in out if o[1].startswith('const')]
     return [(path, name, ln + 1, op, new) for ln, op, new in out]
 
 
